@@ -22,7 +22,10 @@
 (***************************************************************************)
 EXTENDS Common, TLC
 
-CONSTANTS Threads,      \* thread ids 0..n-1 (integers, as in the harness)
+CONSTANTS FixedList,    \* FALSE: the list protocol as found (abandons a marked node when the unlink CAS fails; find_position
+                        \* re-reads only a removed `next`): the two C07 findings.  TRUE: the repaired protocol (the marker
+                        \* restores the node and retries; a removed `next` restarts the search from the sentinel).
+          Threads,      \* thread ids 0..n-1 (integers, as in the harness)
           Cap, DataOff, Kind, MinSeg0, MaxRetries,
           Prog,         \* [Threads -> Seq(op)]
           Setup         \* [cursor, disc, sent, mem, handles] : the quiescent state the threads start from
@@ -100,12 +103,14 @@ Access(p, l) == CASE
   [] p = "opt.load_head"    -> Load(l.head)                                         \* 1374
   [] p = "opt.cas_mark"     -> Cas(l.head, l.hw, W(0, l.hw.next), "acqrel", "rlx")  \* 1405
   [] p = "opt.cas_unlink"   -> Cas(SENT, l.sw, W(l.sw.size, l.hw.next), "acqrel", "rlx")  \* 1420
+  [] p = "opt.restore"      -> Store(l.head, l.hw)                                  \* repaired protocol only
   \* ---- pessimistic slow path 1243-1342 with find_prev_and_next 607-664
   [] p = "fpn.load_sent"    -> Load(SENT)                                           \* 614
   [] p = "fpn.load_cur"     -> Load(l.pw.next)                                      \* 636
   [] p = "fpn.load_next"    -> Load(l.pw.next)                                      \* 647
   [] p = "pes.cas_mark"     -> Cas(l.ncur, l.nw, W(0, l.nw.next), "acqrel", "rlx")  \* 1276
   [] p = "pes.cas_unlink"   -> Cas(l.pcur, l.pw, W(l.pw.size, l.nw.next), "acqrel", "rlx")  \* 1296
+  [] p = "pes.restore"      -> Store(l.ncur, l.nw)                                  \* repaired protocol only
   \* ---- validate_segment 1566 / try_new_segment 1588
   [] p = "val.load_minseg"  -> Load(MSEG)
   [] p = "ins.load_minseg"  -> Load(MSEG)
@@ -126,6 +131,7 @@ Access(p, l) == CASE
   [] p = "dis.load_head"    -> Load(l.head)                                         \* 1490
   [] p = "dis.cas_mark"     -> Cas(l.head, l.hw, W(0, l.hw.next), "acqrel", "rlx")  \* 1511
   [] p = "dis.cas_unlink"   -> Cas(SENT, l.sw, W(l.sw.size, l.hw.next), "acqrel", "rlx")  \* 1526
+  [] p = "dis.restore"      -> Store(l.head, l.hw)                                  \* repaired protocol only
   [] p = "dis.fadd"         -> Fadd(DISC, l.hw.size)                                \* 1534
   \* ---- Clone 181 / Drop 1671, 1695 / Memory::unmount
   [] p = "rc.fadd"          -> Fadd(REFS, 1)
@@ -227,7 +233,9 @@ Cont(p, l, r) == CASE
   [] p = "opt.cas_mark" -> (IF r.ok THEN Goto(l, "opt.cas_unlink") ELSE Goto(l, "opt.load_sent"))
   [] p = "opt.cas_unlink" ->
         IF r.ok THEN (IF l.hw.size = NIL \/ l.hw.size = BIG THEN Oob(l) ELSE AfterPop(l, l.head, l.hw.size))
+        ELSE IF FixedList THEN Goto(l, "opt.restore")
         ELSE Goto(l, "opt.load_sent")                 \* abandons the node it has just marked (C07 finding)
+  [] p = "opt.restore" -> Goto(l, "opt.load_sent")
   \* ---- pessimistic
   [] p = "fpn.load_sent" -> ResolveP(FpnLoop([l EXCEPT !.pcur = SENT, !.pw = r.old]))
   [] p = "fpn.load_cur"  -> ResolveP(FpnLoop([l EXCEPT !.pcur = l.pw.next, !.pw = r.old]))
@@ -241,7 +249,9 @@ Cont(p, l, r) == CASE
   [] p = "pes.cas_mark" -> (IF r.ok THEN Goto(l, "pes.cas_unlink") ELSE Goto(l, "fpn.load_sent"))
   [] p = "pes.cas_unlink" ->
         IF r.ok THEN (IF l.nw.size = NIL \/ l.nw.size = BIG THEN Oob(l) ELSE AfterPop(l, l.ncur, l.nw.size))
+        ELSE IF FixedList THEN Goto(l, "pes.restore")
         ELSE Goto(l, "fpn.load_sent")                 \* abandons the node it has just marked (C07 finding)
+  [] p = "pes.restore" -> Goto(l, "fpn.load_sent")
   \* ---- remainder / insert
   [] p = "val.load_minseg" ->
         IF l.rem - Hdr(l.dend) >= r.old
@@ -254,7 +264,7 @@ Cont(p, l, r) == CASE
   [] p = "fp.load_sent" -> Resolve(FpLoop([l EXCEPT !.fcur = SENT, !.fcw = r.old]))
   [] p = "fp.load_cur"  -> Resolve(FpLoop([l EXCEPT !.fcur = l.fcw.next, !.fcw = r.old]))
   [] p = "fp.load_next" ->
-        IF r.old.size = 0 THEN Goto(l, p)             \* re-reads `next` only, waits for its owner (C07 finding)
+        IF r.old.size = 0 THEN (IF FixedList THEN Goto(l, "fp.load_sent") ELSE Goto(l, p))   \* as found: re-reads `next` only (C07 finding)
         ELSE IF ~Chk(l.dsize, r.old.size)
              THEN Resolve(FpLoop([l EXCEPT !.fcur = l.fcw.next, !.fcw = r.old]))
         ELSE Resolve(Goto(l, "ins.after_find"))
@@ -275,7 +285,8 @@ Cont(p, l, r) == CASE
   [] p = "dis.load_head" ->
         IF r.old.size = 0 THEN Goto(l, "dis.load_sent") ELSE Goto([l EXCEPT !.hw = r.old], "dis.cas_mark")
   [] p = "dis.cas_mark" -> (IF r.ok THEN Goto(l, "dis.cas_unlink") ELSE Goto(l, "dis.load_sent"))
-  [] p = "dis.cas_unlink" -> (IF r.ok THEN Goto(l, "dis.fadd") ELSE Goto(l, "dis.load_sent"))
+  [] p = "dis.cas_unlink" -> (IF r.ok THEN Goto(l, "dis.fadd") ELSE IF FixedList THEN Goto(l, "dis.restore") ELSE Goto(l, "dis.load_sent"))
+  [] p = "dis.restore" -> Goto(l, "dis.load_sent")
   [] p = "dis.fadd" -> Goto([l EXCEPT !.acc = l.acc + (IF l.hw.size > 0 THEN l.hw.size ELSE 0)], "dis.load_sent")
   \* ---- reference counting
   [] p = "rc.fadd" -> Done(l, "cloned")
